@@ -322,7 +322,23 @@ func (g *storeGen) idiom() []Step {
 	deq := func(ttl time.Duration) Step {
 		return Step{Op: "dequeue", Route: route, Target: target, Batch: 1, TTL: ttl}
 	}
-	switch rapid.SampledFrom([]string{"dead", "acked", "expired", "mixed_batch", "fill", "prune_pass", "bulk", "newer_rows", "staggered", "staggered", "extended"}).Draw(t, "i.kind") {
+	switch rapid.SampledFrom([]string{"dead", "acked", "expired", "mixed_batch", "fill", "prune_pass", "bulk", "newer_rows", "staggered", "staggered", "extended", "attempts"}).Draw(t, "i.kind") {
+	case "attempts":
+		// delivery-attempt records whose times do not follow the order in which
+		// they were recorded (several workers stamp their own), then a listing
+		// that does not take them all
+		rt := rapid.SampledFrom(genRoutes[:2]).Draw(t, "i.aroute")
+		tg := rapid.SampledFrom(genTargets[1:]).Draw(t, "i.atarget")
+		var out []Step
+		for k := rapid.IntRange(2, 4).Draw(t, "i.an"); k > 0; k-- {
+			out = append(out, Step{Op: "attempt", Route: rt, Target: tg, Batch: rapid.IntRange(0, 11).Draw(t, "i.aid"),
+				D: rapid.SampledFrom([]time.Duration{0, -time.Second, -10 * time.Second, -30 * time.Second, time.Second, 5 * time.Second}).Draw(t, "i.aat")})
+		}
+		ls := Step{Op: "list_attempts", Batch: rapid.IntRange(1, 2).Draw(t, "i.alimit")}
+		if rapid.Bool().Draw(t, "i.ar?") {
+			ls.Route = rt
+		}
+		return append(out, ls)
 	case "dead":
 		return []Step{enq(), deq(30 * time.Second), {Op: "dead", LeaseRef: intp(0), Reason: "manual"}}
 	case "acked":
